@@ -1,6 +1,6 @@
 SPECIFICATION Spec
 CONSTANTS
-  MaxRoutes = 2
+  MaxRoutes = 3
   AddrBits = 8
 INVARIANT BestMatches
 INVARIANT NoLongerPrefix
